@@ -16,12 +16,14 @@ Close Scope Q_scope.
 Open Scope string_scope.
 
 (* ---------- types and values ---------- *)
-Inductive ty := TInt | TFloat | TString | TBytes | TBool | TInts | TTime.
+Inductive ty := TInt | TFloat | TString | TBytes | TBool | TInts | TTime
+| TPArr       (* *[N]int: a pointer to an array of integers *)
+| TMapIS.     (* map[int]string *)
 
 Definition ty_eqb (a b : ty) : bool :=
   match a, b with
   | TInt, TInt | TFloat, TFloat | TString, TString | TBytes, TBytes
-  | TBool, TBool | TInts, TInts | TTime, TTime => true
+  | TBool, TBool | TInts, TInts | TTime, TTime | TPArr, TPArr | TMapIS, TMapIS => true
   | _, _ => false
   end.
 
@@ -29,12 +31,15 @@ Inductive fl := FNaN | FInf (neg : bool) | FFin (q : Q).
 
 Inductive value :=
 | VInt (z : Z) | VFloat (f : fl) | VStr (s : string) | VBytes (s : string)
-| VBool (b : bool) | VInts (l : list Z) | VTime (ns : Z).
+| VBool (b : bool) | VInts (l : list Z) | VTime (ns : Z)
+| VPArr (n : nat) (o : option (list Z))   (* pointer to an array of length n: nil, or the array's elements *)
+| VMap (m : list (Z * string)).           (* a map as an association list (nil and empty maps read alike) *)
 
 Definition vty (v : value) : ty :=
   match v with
   | VInt _ => TInt | VFloat _ => TFloat | VStr _ => TString | VBytes _ => TBytes
   | VBool _ => TBool | VInts _ => TInts | VTime _ => TTime
+  | VPArr _ _ => TPArr | VMap _ => TMapIS
   end.
 Definition has_type (v : value) (t : ty) : Prop := vty v = t.
 
@@ -42,6 +47,7 @@ Definition default_value (t : ty) : value :=
   match t with
   | TInt => VInt 0 | TFloat => VFloat (FFin 0%Q) | TString => VStr "" | TBytes => VBytes ""
   | TBool => VBool false | TInts => VInts [] | TTime => VTime 0
+  | TPArr => VPArr 0 None | TMapIS => VMap []
   end.
 
 (* ---------- events, outcomes, environments ---------- *)
@@ -56,14 +62,16 @@ Definition outcome := res value.
 
 Record env := {
   vars : string -> ty -> value;                         (* variable [x] used at type [t] *)
-  funs : string -> list value -> hist -> ty -> value    (* opaque function: result may depend on the history *)
+  funs : string -> list value -> hist -> ty -> value;   (* opaque function: result may depend on the history *)
+  nilp : string -> bool                                 (* pointer variable [x] is nil *)
 }.
 Definition env_ok (en : env) : Prop :=
   (forall x t, has_type (vars en x t) t) /\ (forall f a h t, has_type (funs en f a h t) t).
 
 (* ---------- syntax ---------- *)
 Inductive unop := UNot | UNeg.
-Inductive binop := OAdd | OSub | OMul | OQuo | ORem | OEq | ONe | OLt | OLe | OGt | OGe | OLAnd | OLOr.
+Inductive binop := OAdd | OSub | OMul | OQuo | ORem | OEq | ONe | OLt | OLe | OGt | OGe | OLAnd | OLOr
+| OAnd | OOr | OXor | OShl | OShr | OAndNot.     (* & | ^ << >> &^ on integers *)
 Inductive litkind := LInt | LFloat | LString.
 
 (* modelled (pure) builtins and library functions *)
@@ -71,7 +79,22 @@ Inductive prim :=
 | PLen | PStringOfBytes | PBytesOfString
 | PStrIndex | PStrContains | PStrCompare | PBytesEqual
 | PJoin2 | PJoin3
-| PUnix | PUnixNano | PUnixMilli | PUnixMicro.
+| PUnix | PUnixNano | PUnixMilli | PUnixMicro
+(* round 5: the remaining dupArg / wrapperFunc / equalFold library functions on byte strings *)
+| PStrHasPrefix | PStrHasSuffix | PStrLastIndex | PStrEqualFold | PStrToLower | PStrToUpper
+| PStrIndexAny | PStrContainsAny | PStrReplace | PStrReplaceAll
+| PBytesIndex | PBytesContains | PBytesCompare | PBytesHasPrefix | PBytesHasSuffix | PBytesLastIndex
+| PBytesEqualFold | PBytesReplace | PBytesReplaceAll.
+
+(* what go/types knows about an operand's type beyond its underlying model type: predeclared / type literal,
+   a defined (named) type, an array (the model keeps its elements in a list, like a slice) *)
+Inductive vkind := KPlain | KDef (n : string) | KArr.
+Definition vkind_eqb (a b : vkind) : bool :=
+  match a, b with
+  | KPlain, KPlain | KArr, KArr => true
+  | KDef n, KDef m => String.eqb n m
+  | _, _ => false
+  end.
 
 Inductive fn := FOpaque (name : string) (ret : ty) | FPrim (p : prim).
 
@@ -83,24 +106,55 @@ Inductive expr :=
 | EBinary (op : binop) (l r : expr)
 | ECall (f : fn) (args : list expr)
 | EIndex (a i : expr)
-| ESliceAll (a : expr).                        (* a[:] *)
+| ESliceAll (a : expr)                         (* a[:] *)
+(* round 5 *)
+| EVarK (x : string) (k : vkind) (t : ty)      (* a variable of a defined type / of an array type; [t] is the underlying model type *)
+| ESel (x f : string) (k : vkind) (t : ty)     (* x.f with x a pointer-to-struct variable: panics when x is nil *)
+| EConst (x : string) (cv : value).             (* a named constant with the value go/types computed (true, false, const c = 5) *)
 
 Definition unop_eqb (a b : unop) := match a, b with UNot, UNot | UNeg, UNeg => true | _, _ => false end.
 Definition binop_idx (o : binop) : N :=
   match o with OAdd => 0 | OSub => 1 | OMul => 2 | OQuo => 3 | ORem => 4 | OEq => 5 | ONe => 6 | OLt => 7
-             | OLe => 8 | OGt => 9 | OGe => 10 | OLAnd => 11 | OLOr => 12 end%N.
+             | OLe => 8 | OGt => 9 | OGe => 10 | OLAnd => 11 | OLOr => 12
+             | OAnd => 13 | OOr => 14 | OXor => 15 | OShl => 16 | OShr => 17 | OAndNot => 18 end%N.
 Definition binop_eqb (a b : binop) : bool := N.eqb (binop_idx a) (binop_idx b).
 Definition litkind_eqb (a b : litkind) :=
   match a, b with LInt, LInt | LFloat, LFloat | LString, LString => true | _, _ => false end.
 Definition prim_idx (p : prim) : N :=
   match p with PLen => 0 | PStringOfBytes => 1 | PBytesOfString => 2 | PStrIndex => 3 | PStrContains => 4
              | PStrCompare => 5 | PBytesEqual => 6 | PJoin2 => 7 | PJoin3 => 8 | PUnix => 9 | PUnixNano => 10
-             | PUnixMilli => 11 | PUnixMicro => 12 end%N.
+             | PUnixMilli => 11 | PUnixMicro => 12
+             | PStrHasPrefix => 13 | PStrHasSuffix => 14 | PStrLastIndex => 15 | PStrEqualFold => 16 | PStrToLower => 17
+             | PStrToUpper => 18 | PStrIndexAny => 19 | PStrContainsAny => 20 | PStrReplace => 21 | PStrReplaceAll => 22
+             | PBytesIndex => 23 | PBytesContains => 24 | PBytesCompare => 25 | PBytesHasPrefix => 26 | PBytesHasSuffix => 27
+             | PBytesLastIndex => 28 | PBytesEqualFold => 29 | PBytesReplace => 30 | PBytesReplaceAll => 31 end%N.
 Definition prim_eqb (a b : prim) : bool := N.eqb (prim_idx a) (prim_idx b).
 Definition fn_eqb (a b : fn) : bool :=
   match a, b with
   | FOpaque n t, FOpaque n' t' => String.eqb n n' && ty_eqb t t'
   | FPrim p, FPrim p' => prim_eqb p p'
+  | _, _ => false
+  end.
+
+Definition fl_eqb (a b : fl) : bool :=
+  match a, b with
+  | FNaN, FNaN => true
+  | FInf x, FInf y => Bool.eqb x y
+  | FFin p, FFin q => Z.eqb (Qnum p) (Qnum q) && Pos.eqb (Qden p) (Qden q)
+  | _, _ => false
+  end.
+(* structural equality of values (constants of the same name have the same value anyway) *)
+Definition value_eqb (a b : value) : bool :=
+  match a, b with
+  | VInt x, VInt y => Z.eqb x y
+  | VFloat x, VFloat y => fl_eqb x y
+  | VStr x, VStr y | VBytes x, VBytes y => String.eqb x y
+  | VBool x, VBool y => Bool.eqb x y
+  | VInts x, VInts y => list_eqb Z.eqb x y
+  | VTime x, VTime y => Z.eqb x y
+  | VPArr n x, VPArr m y =>
+      Nat.eqb n m && match x, y with None, None => true | Some a, Some b => list_eqb Z.eqb a b | _, _ => false end
+  | VMap x, VMap y => list_eqb (fun p q => Z.eqb (fst p) (fst q) && String.eqb (snd p) (snd q)) x y
   | _, _ => false
   end.
 
@@ -123,6 +177,9 @@ Fixpoint expr_eqb (a b : expr) {struct a} : bool :=
          end) args args'
   | EIndex x i, EIndex x' i' => expr_eqb x x' && expr_eqb i i'
   | ESliceAll x, ESliceAll x' => expr_eqb x x'
+  | EVarK x k t, EVarK x' k' t' => String.eqb x x' && vkind_eqb k k' && ty_eqb t t'
+  | ESel x f k t, ESel x' f' k' t' => String.eqb x x' && String.eqb f f' && vkind_eqb k k' && ty_eqb t t'
+  | EConst x v, EConst x' v' => String.eqb x x' && value_eqb v v'
   | _, _ => false
   end.
 
@@ -311,6 +368,13 @@ Definition arith (o : binop) (a b : value) : option outcome :=
       | OMul => Some (RVal (VInt (x * y)))
       | OQuo => Some (if (y =? 0)%Z then RPanic else RVal (VInt (Z.quot x y)))
       | ORem => Some (if (y =? 0)%Z then RPanic else RVal (VInt (Z.rem x y)))
+      | OAnd => Some (RVal (VInt (Z.land x y)))
+      | OOr => Some (RVal (VInt (Z.lor x y)))
+      | OXor => Some (RVal (VInt (Z.lxor x y)))
+      | OAndNot => Some (RVal (VInt (Z.ldiff x y)))
+      (* a negative shift count is a run-time panic *)
+      | OShl => Some (if (y <? 0)%Z then RPanic else RVal (VInt (Z.shiftl x y)))
+      | OShr => Some (if (y <? 0)%Z then RPanic else RVal (VInt (Z.shiftr x y)))
       | _ => None
       end
   | VFloat x, VFloat y =>
@@ -352,6 +416,62 @@ Definition str_contains (s sub : string) : bool := (0 <=? str_index s sub)%Z.
 Definition str_compare (a b : string) : Z :=
   match String.compare a b with Eq => 0 | Lt => -1 | Gt => 1 end%Z.
 
+(* strings.LastIndex: last position of [sub] in [s] (len(s) for the empty [sub]), or -1 *)
+Fixpoint str_last_index_from (sub s : string) (i best : Z) : Z :=
+  let best' := if has_prefix sub s then i else best in
+  match s with
+  | EmptyString => best'
+  | String _ r => str_last_index_from sub r (i + 1)%Z best'
+  end.
+Definition str_last_index (s sub : string) : Z := str_last_index_from sub s 0 (-1).
+
+(* ASCII case mapping; the functions that decode UTF-8 are modelled on ASCII operands only *)
+Definition is_ascii_byte (a : ascii) : bool := (N_of_ascii a <? 128)%N.
+Fixpoint is_ascii (s : string) : bool :=
+  match s with EmptyString => true | String a r => is_ascii_byte a && is_ascii r end.
+Definition lower_a (a : ascii) : ascii :=
+  let n := N_of_ascii a in if (65 <=? n)%N && (n <=? 90)%N then ascii_of_N (n + 32) else a.
+Definition upper_a (a : ascii) : ascii :=
+  let n := N_of_ascii a in if (97 <=? n)%N && (n <=? 122)%N then ascii_of_N (n - 32) else a.
+Fixpoint map_s (f : ascii -> ascii) (s : string) : string :=
+  match s with EmptyString => EmptyString | String a r => String (f a) (map_s f r) end.
+Definition str_lower := map_s lower_a.
+Definition str_upper := map_s upper_a.
+(* strings.EqualFold on ASCII operands: simple case folding = equality of the lower-cased strings *)
+Definition str_equal_fold (s t : string) : bool := String.eqb (str_lower s) (str_lower t).
+
+Fixpoint mem_byte (a : ascii) (s : string) : bool :=
+  match s with EmptyString => false | String b r => Ascii.eqb a b || mem_byte a r end.
+(* strings.IndexAny on ASCII operands *)
+Fixpoint str_index_any_from (s chars : string) (i : Z) : Z :=
+  match s with
+  | EmptyString => (-1)%Z
+  | String a r => if mem_byte a chars then i else str_index_any_from r chars (i + 1)%Z
+  end.
+Definition str_index_any (s chars : string) : Z := str_index_any_from s chars 0.
+
+(* strings.Replace(s, old, new, n) for a non-empty [old]: the first n non-overlapping occurrences, all if n < 0.
+   [skip]: bytes of the occurrence just replaced that are still to be dropped *)
+Fixpoint str_repl (s old new : string) (n : Z) (skip : nat) : string :=
+  match s with
+  | EmptyString => EmptyString
+  | String a r =>
+      match skip with
+      | S k => str_repl r old new n k
+      | O =>
+          if (n =? 0)%Z then s
+          else if has_prefix old s then new ++ str_repl r old new (n - 1)%Z (String.length old - 1)
+          else String a (str_repl r old new n 0)
+      end
+  end.
+(* Go returns s unchanged when old == new or n == 0; the empty [old] (a match at every rune boundary) is outside the fragment *)
+Definition str_replace (s old new : string) (n : Z) : option string :=
+  if String.eqb old new || (n =? 0)%Z then Some s
+  else match old with
+       | EmptyString => None
+       | _ => Some (str_repl s old new n 0)
+       end.
+
 Fixpoint nth_Z {A} (l : list A) (i : nat) : option A :=
   match l, i with
   | [], _ => None
@@ -371,6 +491,9 @@ Definition prim_apply (p : prim) (args : list value) : option outcome :=
   | PLen, [VStr s] => Some (RVal (VInt (slen s)))
   | PLen, [VBytes s] => Some (RVal (VInt (slen s)))
   | PLen, [VInts l] => Some (RVal (VInt (Z.of_nat (List.length l))))
+  (* the length of an array is part of its type: len(p) of a nil *[N]int is N, nothing is dereferenced *)
+  | PLen, [VPArr n _] => Some (RVal (VInt (Z.of_nat n)))
+  | PLen, [VMap m] => Some (RVal (VInt (Z.of_nat (List.length m))))
   | PStringOfBytes, [VBytes s] => Some (RVal (VStr s))
   | PBytesOfString, [VStr s] => Some (RVal (VBytes s))
   | PStrIndex, [VStr s; VStr t] => Some (RVal (VInt (str_index s t)))
@@ -383,12 +506,33 @@ Definition prim_apply (p : prim) (args : list value) : option outcome :=
   | PUnixMilli, [VTime ns] => Some (RVal (VInt (ns / 1000000)))
   | PUnixMicro, [VTime ns] => Some (RVal (VInt (ns / 1000)))
   | PUnixNano, [VTime ns] => Some (RVal (VInt ns))
+  | PStrHasPrefix, [VStr s; VStr t] => Some (RVal (VBool (has_prefix t s)))
+  | PStrHasSuffix, [VStr s; VStr t] => Some (RVal (VBool (has_suffix t s)))
+  | PStrLastIndex, [VStr s; VStr t] => Some (RVal (VInt (str_last_index s t)))
+  | PStrEqualFold, [VStr s; VStr t] => if is_ascii s && is_ascii t then Some (RVal (VBool (str_equal_fold s t))) else None
+  | PStrToLower, [VStr s] => if is_ascii s then Some (RVal (VStr (str_lower s))) else None
+  | PStrToUpper, [VStr s] => if is_ascii s then Some (RVal (VStr (str_upper s))) else None
+  | PStrIndexAny, [VStr s; VStr t] => if is_ascii s && is_ascii t then Some (RVal (VInt (str_index_any s t))) else None
+  (* strings.ContainsAny is defined by the library as IndexAny(s, chars) >= 0 *)
+  | PStrContainsAny, [VStr s; VStr t] => if is_ascii s && is_ascii t then Some (RVal (VBool (0 <=? str_index_any s t)%Z)) else None
+  | PStrReplace, [VStr s; VStr o; VStr n; VInt k] => option_map (fun r => RVal (VStr r)) (str_replace s o n k)
+  (* strings.ReplaceAll is defined by the library as Replace(s, old, new, -1) *)
+  | PStrReplaceAll, [VStr s; VStr o; VStr n] => option_map (fun r => RVal (VStr r)) (str_replace s o n (-1))
+  | PBytesIndex, [VBytes s; VBytes t] => Some (RVal (VInt (str_index s t)))
+  | PBytesContains, [VBytes s; VBytes t] => Some (RVal (VBool (str_contains s t)))
+  | PBytesCompare, [VBytes s; VBytes t] => Some (RVal (VInt (str_compare s t)))
+  | PBytesHasPrefix, [VBytes s; VBytes t] => Some (RVal (VBool (has_prefix t s)))
+  | PBytesHasSuffix, [VBytes s; VBytes t] => Some (RVal (VBool (has_suffix t s)))
+  | PBytesLastIndex, [VBytes s; VBytes t] => Some (RVal (VInt (str_last_index s t)))
+  | PBytesEqualFold, [VBytes s; VBytes t] => if is_ascii s && is_ascii t then Some (RVal (VBool (str_equal_fold s t))) else None
+  | PBytesReplace, [VBytes s; VBytes o; VBytes n; VInt k] => option_map (fun r => RVal (VBytes r)) (str_replace s o n k)
+  | PBytesReplaceAll, [VBytes s; VBytes o; VBytes n] => option_map (fun r => RVal (VBytes r)) (str_replace s o n (-1))
   | _, _ => None
   end.
 
 Definition prim_type (p : prim) (ts : list ty) : option ty :=
   match p, ts with
-  | PLen, [TString] | PLen, [TBytes] | PLen, [TInts] => Some TInt
+  | PLen, [TString] | PLen, [TBytes] | PLen, [TInts] | PLen, [TPArr] | PLen, [TMapIS] => Some TInt
   | PStringOfBytes, [TBytes] => Some TString
   | PBytesOfString, [TString] => Some TBytes
   | PStrIndex, [TString; TString] => Some TInt
@@ -398,6 +542,15 @@ Definition prim_type (p : prim) (ts : list ty) : option ty :=
   | PJoin2, [TString; TString; TString] => Some TString
   | PJoin3, [TString; TString; TString; TString] => Some TString
   | PUnix, [TTime] | PUnixNano, [TTime] | PUnixMilli, [TTime] | PUnixMicro, [TTime] => Some TInt
+  | PStrHasPrefix, [TString; TString] | PStrHasSuffix, [TString; TString] | PStrEqualFold, [TString; TString]
+  | PStrContainsAny, [TString; TString] => Some TBool
+  | PStrLastIndex, [TString; TString] | PStrIndexAny, [TString; TString] => Some TInt
+  | PStrToLower, [TString] | PStrToUpper, [TString] => Some TString
+  | PStrReplace, [TString; TString; TString; TInt] | PStrReplaceAll, [TString; TString; TString] => Some TString
+  | PBytesIndex, [TBytes; TBytes] | PBytesCompare, [TBytes; TBytes] | PBytesLastIndex, [TBytes; TBytes] => Some TInt
+  | PBytesContains, [TBytes; TBytes] | PBytesHasPrefix, [TBytes; TBytes] | PBytesHasSuffix, [TBytes; TBytes]
+  | PBytesEqualFold, [TBytes; TBytes] => Some TBool
+  | PBytesReplace, [TBytes; TBytes; TBytes; TInt] | PBytesReplaceAll, [TBytes; TBytes; TBytes] => Some TBytes
   | _, _ => None
   end.
 
@@ -421,12 +574,26 @@ Definition index_apply (a i : value) : option outcome :=
                  | Some z => RVal (VInt z)
                  | None => RPanic
                  end)
+  (* p[k] dereferences p: a nil pointer panics *)
+  | VPArr _ None, VInt _ => Some RPanic
+  | VPArr _ (Some l), VInt k =>
+      Some (if (k <? 0)%Z then RPanic
+            else match nth_Z l (Z.to_nat k) with
+                 | Some z => RVal (VInt z)
+                 | None => RPanic
+                 end)
+  (* a map read never panics: the zero value for an absent key *)
+  | VMap m, VInt k =>
+      Some (RVal (VStr match find (fun p => Z.eqb (fst p) k) m with Some p => snd p | None => "" end))
   | _, _ => None
   end.
 
 Definition slice_all_apply (a : value) : option outcome :=
   match a with
   | VStr _ | VInts _ | VBytes _ => Some (RVal a)
+  (* p[:] slices the array p points to: a slice value, not the pointer; nil panics *)
+  | VPArr _ None => Some RPanic
+  | VPArr _ (Some l) => Some (RVal (VInts l))
   | _ => None
   end.
 
@@ -435,11 +602,14 @@ Definition binop_type (o : binop) (a b : ty) : option ty :=
   if negb (ty_eqb a b) then None
   else match o with
        | OLAnd | OLOr => match a with TBool => Some TBool | _ => None end
-       | OEq | ONe => match a with TInt | TFloat | TString | TBool => Some TBool | _ => None end
+       (* pointers are comparable (typed), but pointer identity is not a value of the model (not evaluated) *)
+       | OEq | ONe => match a with TInt | TFloat | TString | TBool | TPArr => Some TBool | _ => None end
        | OLt | OLe | OGt | OGe => match a with TInt | TFloat | TString => Some TBool | _ => None end
        | OAdd => match a with TInt | TFloat | TString => Some a | _ => None end
        | OSub => match a with TInt | TFloat => Some a | _ => None end
-       | OMul | OQuo | ORem => match a with TInt => Some a | _ => None end
+       (* float * and / are typed, but not evaluated: without rounding and signed zeros the model would misstate them *)
+       | OMul | OQuo => match a with TInt | TFloat => Some a | _ => None end
+       | ORem | OAnd | OOr | OXor | OShl | OShr | OAndNot => match a with TInt => Some a | _ => None end
        end.
 
 Definition lit_type_ok (k : litkind) (text : string) (t : ty) : bool :=
@@ -468,14 +638,19 @@ Fixpoint typeof (e : expr) : option ty :=
       end
   | EIndex a i =>
       match typeof a, typeof i with
-      | Some TString, Some TInt | Some TInts, Some TInt | Some TBytes, Some TInt => Some TInt
+      | Some TString, Some TInt | Some TInts, Some TInt | Some TBytes, Some TInt | Some TPArr, Some TInt => Some TInt
+      | Some TMapIS, Some TInt => Some TString
       | _, _ => None
       end
   | ESliceAll a =>
       match typeof a with
       | Some TString => Some TString | Some TInts => Some TInts | Some TBytes => Some TBytes
+      | Some TPArr => Some TInts
       | _ => None
       end
+  | EVarK _ _ t => Some t
+  | ESel _ _ _ t => Some t
+  | EConst _ v => Some (vty v)
   end.
 
 Definition well_typed (e : expr) : Prop := exists t, typeof e = Some t.
@@ -547,6 +722,10 @@ Fixpoint evalS (en : env) (e : expr) (h : hist) {struct e} : R :=
       bind (evalS en a h) (fun va h1 =>
         bind (evalS en i h1) (fun vi h2 => lift (index_apply va vi) h2))
   | ESliceAll a => bind (evalS en a h) (fun va h1 => lift (slice_all_apply va) h1)
+  | EVarK x _ t => Some (RVal (vars en x t), h)
+  (* the field of the struct a non-nil pointer variable points to is the variable "x.f" *)
+  | ESel x f _ t => if nilp en x then Some (RPanic, h) else Some (RVal (vars en (x ++ "." ++ f) t), h)
+  | EConst _ v => Some (RVal v, h)
   end.
 
 (* the argument-list evaluator, as a stand-alone function (equal to the inner fix above) *)
@@ -588,6 +767,7 @@ Fixpoint side_effect_free (e : expr) : bool :=
       prim_fun_is_type_lit p &&
       (fix go (l : list expr) : bool := match l with [] => true | x :: r => side_effect_free x && go r end) args
   | ECall (FOpaque _ _) _ => false
+  | EVarK _ _ _ | ESel _ _ _ _ | EConst _ _ => true
   end.
 
 (* ruleguard's .Pure filter (ruleguard/utils.go isPure) on the original, typed AST: identifiers, literals,
@@ -607,6 +787,7 @@ Fixpoint rg_pure (e : expr) : bool :=
       | _ => false
       end
   | ECall (FOpaque _ _) _ => false
+  | EVarK _ _ _ | ESel _ _ _ _ | EConst _ _ => true
   end.
 
 (* ---------- sample environments for witnesses ---------- *)
@@ -623,4 +804,5 @@ Definition env_of (vs : list (string * value)) (fs : list (string * (nat -> valu
            let v := snd p n in
            if ty_eqb (vty v) t then v else default_value t
        | None => default_value t
-       end |}.
+       end;
+     nilp := fun _ => false |}.
